@@ -64,13 +64,14 @@ func (v *VMap) Valid(src interface{}) error {
 
 // validate 验证执行体
 func (v *VMap) validate(prefix string, tv reflect.Value) *VMap {
-	if tv.Type().Key().Kind() != reflect.String {
-		v.errBuf.WriteString(GetJoinFieldErr("", prefix, "map key must string"))
+	tv = RemoveValuePtr(tv)
+	if tv.Kind() != reflect.Map { // 包含空指针
+		v.errBuf.WriteString(GetJoinFieldErr("", prefix, "val must map"))
 		return v
 	}
 
-	if tv.Kind() != reflect.Map {
-		v.errBuf.WriteString(GetJoinFieldErr("", prefix, "val must map"))
+	if tv.Type().Key().Kind() != reflect.String {
+		v.errBuf.WriteString(GetJoinFieldErr("", prefix, "map key must string"))
 		return v
 	}
 
